@@ -610,7 +610,7 @@ impl World {
             )
         } else if self.older_file_flipped && about_loss && !sig.contains("| bitflip-in-older-log-file |") {
             (
-                format!("{} | after-bitflip-in-older-log-file | records-of-later-files-applied-without-their-predecessors | recovery-faithful-to-log", self.prop),
+                format!("{} | bitflip-in-older-log-file | not-a-prefix | recovery-faithful-to-log", self.prop),
                 format!("[{sig}] {detail}"),
             )
         } else if about_loss {
@@ -1134,6 +1134,9 @@ pub fn exec(cfg: &Config, ops: &[Op], run_tag: &str) -> ExecResult {
                                 if r == want_asis && !w.unlogged_seen.is_empty() {
                                     return Err("as-is:unlogged".to_string());
                                 }
+                                if r == want_asis && w.older_file_flipped {
+                                    return Err("as-is:older-file-flip".to_string());
+                                }
                                 return Err(format!("remove_node_property({id},{key}) returned {r}, expected {want}"));
                             }
                             applied_both(&mut w, &|g| { if let Some(n) = g.nodes.get_mut(&id) { n.props.remove(key); } }, logged);
@@ -1266,6 +1269,14 @@ pub fn exec(cfg: &Config, ops: &[Op], run_tag: &str) -> ExecResult {
         .unwrap_or_else(|p| Err(format!("panic: {p}")));
         w.db = Some(db_owned);
         if let Err(e) = res {
+            if e == "as-is:older-file-flip" {
+                let prop = w.prop.clone();
+                w.findings.push((
+                    format!("{prop} | bitflip-in-older-log-file | not-a-prefix | recovery-faithful-to-log"),
+                    format!("step {i}: {} answered with a stray property value that later log files carried for a node whose creation was lost with the flipped record", op.kind()),
+                ));
+                break 'ops;
+            }
             if e == "as-is:unlogged" {
                 let kinds: Vec<&str> = w.unlogged_seen.iter().copied().collect();
                 for k in kinds {
@@ -1428,6 +1439,16 @@ pub fn exec(cfg: &Config, ops: &[Op], run_tag: &str) -> ExecResult {
                             let (m, ml) = if p == 0 { (RefGraph::default(), RefGraph::default()) } else { w.snaps[p - 1].clone() };
                             w.model = m;
                             w.model_logged = ml;
+                            // stray property values that the recovery itself produced (records of
+                            // later files applied although the record that created their node was
+                            // lost with the flipped one) are part of the as-is view from here on
+                            if let Some(v) = &w.log_view {
+                                for (id, kv) in &v.orphans {
+                                    if !w.model_logged.nodes.contains_key(id) {
+                                        w.model_logged.orphans.entry(*id).or_default().extend(kv.clone());
+                                    }
+                                }
+                            }
                             for s in p..w.snaps.len() {
                                 w.snaps[s] = (w.model.clone(), w.model_logged.clone());
                             }
